@@ -72,15 +72,12 @@ def sched_facts():
     rc = pyast.find_func(R, '_run_coroutine_threadsafe')
     assert ast.unparse(rc.body[0]) == 'future = asyncio.run_coroutine_threadsafe(coroutine, loop)'
     loops_ = [n for n in rc.body if isinstance(n, ast.While)]
-    assert len(loops_) == 1 and ast.unparse(loops_[0].test) == 'True' and len(loops_[0].body) == 1 and isinstance(loops_[0].body[0], ast.Try)
-    tr_ = loops_[0].body[0]
-    assert len(tr_.body) == 1 and isinstance(tr_.body[0], ast.Return) and ast.unparse(tr_.body[0].value.func) == 'future.result' \
-        and [k.arg for k in tr_.body[0].value.keywords] == ['timeout'], 'bounded wait expected'
-    assert len(tr_.handlers) == 1 and ast.unparse(tr_.handlers[0].type) == 'concurrent.futures.TimeoutError'
-    hb = tr_.handlers[0].body
-    assert len(hb) == 2 and all(isinstance(x, ast.If) for x in hb)
-    assert ast.unparse(hb[0].test) == 'future.done()' and isinstance(hb[0].body[0], ast.Raise) and hb[0].body[0].exc is None
-    assert ast.unparse(hb[1].test) == 'loop.is_closed()' and isinstance(hb[1].body[-1], ast.Raise) and not hb[1].orelse
+    assert len(loops_) == 1 and ast.unparse(loops_[0].test) == 'True' and len(loops_[0].body) == 3
+    w0, w1, w2 = loops_[0].body
+    assert isinstance(w0, ast.Assign) and ast.unparse(w0.value.func) == 'concurrent.futures.wait' and ast.unparse(w0.value.args[0]) == '[future]' \
+        and [k.arg for k in w0.value.keywords] == ['timeout'] and ast.unparse(w0.targets[0]) == '(done, _)', 'bounded wait expected'
+    assert isinstance(w1, ast.If) and ast.unparse(w1.test) == 'done' and ast.unparse(w1.body[0]) == 'return future.result()' and not w1.orelse
+    assert isinstance(w2, ast.If) and ast.unparse(w2.test) == 'loop.is_closed()' and isinstance(w2.body[-1], ast.Raise) and not w2.orelse
     for fn in ('_maybe_run_coroutine_threadsafe',):
         src_ = _ws(ast.unparse(pyast.find_func(R, fn)))
         assert 'run_coroutine_threadsafe(func(*args, **kwargs), loop=loop)' in src_ and '.result()' not in src_
